@@ -284,3 +284,289 @@ Section Comparers.
           -- cbn [compare_str]. destruct (Byte.eqb k e); reflexivity.
   Qed.
 End Comparers.
+
+(* ------------------------------------------------ search = the token rule *)
+Lemma bytes_eqb_eq a b : bytes_eqb a b = true <-> a = b.
+Proof.
+  revert b. induction a as [|x a IH]; intros [|y b]; cbn; split; intros H; try discriminate; try reflexivity.
+  - apply andb_true_iff in H. destruct H as [H1 H2]. apply eqb_true in H1. apply IH in H2. congruence.
+  - inversion H; subst. rewrite eqb_refl. cbn. apply IH. reflexivity.
+Qed.
+
+Lemma is_prefix_firstn k e : is_prefix k e = true <-> k = firstn (length k) e.
+Proof.
+  revert e. induction k as [|x k IH]; intros e; cbn [is_prefix length firstn].
+  - split; reflexivity.
+  - destruct e as [|y e]; cbn [firstn].
+    + split; discriminate.
+    + split; intros H.
+      * apply andb_true_iff in H. destruct H as [H1 H2]. apply eqb_true in H1. apply IH in H2. congruence.
+      * injection H as H1 H2. rewrite H1, eqb_refl. cbn [andb]. apply IH. exact H2.
+Qed.
+
+Lemma strip_is_strip_na L s : strip L s = if l_has_accents L then strip_na s else s.
+Proof. reflexivity. Qed.
+
+Lemma no_nul_strip L s : no_nul s -> no_nul (strip L s).
+Proof. intros H. unfold strip. destruct (l_has_accents L); [apply no_nul_filter|]; exact H. Qed.
+
+Lemma strip_nil L : strip L [] = [].
+Proof. unfold strip. destruct (l_has_accents L); reflexivity. Qed.
+
+Section SearchSpec.
+  Variable sgn : bool.
+  Notation cs := (compare_str sgn).
+
+  Definition cmp_spec (L : lang) (k e : bytes) : Z :=
+    if l_has_prefix L && (4 <=? length k)%nat then cs k (firstn (length k) e) else cs k e.
+
+  Lemma prefix_cond (k : bytes) :
+    ((NUM_CHARS_PREFIX <=? 1 + N.of_nat (length k) - 1)%N && negb (is_nil k)) = (4 <=? length k)%nat.
+  Proof.
+    unfold NUM_CHARS_PREFIX. destruct k as [|x k]; [reflexivity|]. cbn [is_nil negb]. rewrite andb_true_r.
+    destruct (4 <=? length (x :: k))%nat eqn:E.
+    - apply Nat.leb_le in E. apply N.leb_le. lia.
+    - apply Nat.leb_gt in E. apply N.leb_gt. lia.
+  Qed.
+
+  Lemma comparer_spec L key elm :
+    comparer sgn L key elm = cmp_spec L (strip L key) (strip L elm).
+  Proof.
+    unfold comparer, cmp_spec, strip. fold (strip_na key). fold (strip_na elm).
+    destruct (l_has_prefix L), (l_has_accents L); cbn [andb].
+    - rewrite prefix_noaccent_spec, prefix_spec, prefix_cond. reflexivity.
+    - rewrite prefix_spec, prefix_cond. reflexivity.
+    - apply str_noaccent_spec.
+    - reflexivity.
+  Qed.
+
+  Lemma cs_zero_iff a b : no_nul a -> no_nul b -> (cs a b = 0 <-> a = b).
+  Proof. intros Ha Hb. split; [apply cs_eq0; assumption | intros ->; apply cs_refl]. Qed.
+
+  Lemma cmp_spec_zero L k e : no_nul k -> no_nul e ->
+    (cmp_spec L k e = 0 <-> accepts_stripped L k e = true).
+  Proof.
+    intros Hk He. unfold cmp_spec, accepts_stripped.
+    destruct (l_has_prefix L && (4 <=? length k)%nat) eqn:C.
+    - rewrite cs_zero_iff by (try apply no_nul_firstn; assumption).
+      rewrite orb_true_iff, bytes_eqb_eq, andb_true_iff, is_prefix_firstn. split.
+      + intros H. right. tauto.
+      + intros [H|[_ H]]; [|exact H]. subst e. rewrite firstn_all. reflexivity.
+    - rewrite cs_zero_iff by assumption. cbn [andb]. rewrite orb_false_r, bytes_eqb_eq. tauto.
+  Qed.
+
+  (* monotone cut of a sorted list *)
+  Lemma cmp_spec_mono L k sws : no_nul k -> Forall no_nul sws -> sorted_b sgn sws = true ->
+    forall i j, (i <= j)%nat -> (j < length sws)%nat ->
+    (cmp_spec L k (nth i sws []) <= 0 -> cmp_spec L k (nth j sws []) <= 0) /\
+    (cmp_spec L k (nth i sws []) < 0 -> cmp_spec L k (nth j sws []) < 0).
+  Proof.
+    intros Hk Hn Hs i j Hij Hj.
+    destruct (Nat.eq_dec i j) as [->|Hne]; [tauto|].
+    assert (Hlt : cs (nth i sws []) (nth j sws []) < 0) by (apply sorted_nth; try assumption; lia).
+    assert (Ni : no_nul (nth i sws [])) by (apply Forall_nth; [exact Hn | lia]).
+    assert (Nj : no_nul (nth j sws [])) by (apply Forall_nth; [exact Hn | lia]).
+    unfold cmp_spec. destruct (l_has_prefix L && (4 <=? length k)%nat).
+    - set (n := length k).
+      assert (Hle : cs (firstn n (nth i sws [])) (firstn n (nth j sws [])) <= 0) by (apply cs_firstn; lia).
+      split; intros H;
+        apply (cs_trans sgn k (firstn n (nth i sws [])) (firstn n (nth j sws [])));
+        try apply no_nul_firstn; try assumption; try lia; auto.
+    - split; intros H;
+        apply (cs_trans sgn k (nth i sws []) (nth j sws [])); try assumption; try lia; auto.
+  Qed.
+
+  (* data predicate: what is computed on the generated lists *)
+  Definition lang_ok (L : lang) : bool :=
+    Nat.eqb (length (l_words L)) LANG_SIZE_nat && forallb no_nul_b (l_words L) &&
+    (if l_is_sorted L then sorted_b sgn (map (strip L) (l_words L)) else true).
+
+  Lemma no_nul_b_ok s : no_nul_b s = true -> no_nul s.
+  Proof.
+    unfold no_nul_b, no_nul. intros H I. apply negb_true_iff in H.
+    assert (E : existsb (Byte.eqb x00) s = true) by (apply existsb_exists; exists x00; split; [exact I | apply eqb_refl]).
+    congruence.
+  Qed.
+
+  Section OneLang.
+    Variable L : lang.
+    Hypothesis Hok : lang_ok L = true.
+    Variable key : bytes.
+    Hypothesis Hkey : no_nul key.
+
+    Local Notation words := (l_words L).
+    Local Notation sws := (map (strip L) (l_words L)).
+
+    Lemma ok_len : length words = LANG_SIZE_nat.
+    Proof. unfold lang_ok in Hok. apply andb_true_iff in Hok. destruct Hok as [H _].
+           apply andb_true_iff in H. destruct H as [H _]. apply Nat.eqb_eq, H. Qed.
+
+    Lemma ok_nonul : Forall no_nul words.
+    Proof. unfold lang_ok in Hok. apply andb_true_iff in Hok. destruct Hok as [H _].
+           apply andb_true_iff in H. destruct H as [_ H]. rewrite forallb_forall in H.
+           apply Forall_forall. intros w Hw. apply no_nul_b_ok, H, Hw. Qed.
+
+    Lemma ok_sws_nonul : Forall no_nul sws.
+    Proof. apply Forall_forall. intros w Hw. apply in_map_iff in Hw.
+           destruct Hw as [w0 [<- Hw0]]. apply no_nul_strip.
+           pose proof ok_nonul as H. rewrite Forall_forall in H. apply H, Hw0. Qed.
+
+    Lemma nth_sws j : nth j sws [] = strip L (nth j words []).
+    Proof.
+      transitivity (nth j (map (strip L) words) (strip L [])).
+      - f_equal. symmetry. apply strip_nil.
+      - apply map_nth.
+    Qed.
+
+    Let f (j : nat) : Z := comparer sgn L key (nth j words []).
+
+    Lemma f_spec j : f j = cmp_spec L (strip L key) (nth j sws []).
+    Proof. unfold f. rewrite comparer_spec, nth_sws. reflexivity. Qed.
+
+    Lemma f_zero_iff j : (j < LANG_SIZE_nat)%nat ->
+      (f j = 0 <-> accepts_b L key (nth j words []) = true).
+    Proof.
+      intros Hj. rewrite f_spec, nth_sws. unfold accepts_b.
+      apply cmp_spec_zero; apply no_nul_strip; [exact Hkey|].
+      apply Forall_nth; [exact ok_nonul | rewrite ok_len; exact Hj].
+    Qed.
+
+    Theorem lang_search_total : lang_search sgn L key <> None.
+    Proof.
+      unfold lang_search. destruct (l_is_sorted L); [|discriminate].
+      apply (bsearch_total _ 12). unfold LANG_SIZE_nat. apply (proj1 (Nat.ltb_lt _ _)). vm_compute. reflexivity.
+    Qed.
+
+    Theorem lang_search_sound j :
+      lang_search sgn L key = Some (Some j) ->
+      (j < LANG_SIZE_nat)%nat /\ accepts_b L key (nth j words []) = true.
+    Proof.
+      unfold lang_search. destruct (l_is_sorted L) eqn:S; intros H.
+      - apply bsearch_sound in H. destruct H as [H1 H2]. split; [lia|].
+        apply f_zero_iff; [lia | exact H2].
+      - inversion H as [H1]. apply linear_find_sound in H1. destruct H1 as [H1 H2].
+        rewrite ok_len in H1. rewrite Nat.sub_0_r in H2.
+        split; [lia|]. apply f_zero_iff; [lia | exact H2].
+    Qed.
+
+    Theorem lang_search_complete j :
+      (j < LANG_SIZE_nat)%nat -> accepts_b L key (nth j words []) = true ->
+      exists j', lang_search sgn L key = Some (Some j').
+    Proof.
+      intros Hj Hacc. apply f_zero_iff in Hacc; [|exact Hj].
+      unfold lang_search. destruct (l_is_sorted L) eqn:S.
+      - assert (Hs : sorted_b sgn sws = true).
+        { unfold lang_ok in Hok. rewrite S in Hok. apply andb_true_iff in Hok. tauto. }
+        assert (Hlen : length sws = LANG_SIZE_nat) by (rewrite map_length; apply ok_len).
+        apply (bsearch_complete (fun j => comparer sgn L key (nth j (l_words L) [])) LANG_SIZE_nat) with (z := j);
+          try exact Hacc; try (unfold LANG_SIZE_nat in *; first [lia | apply (proj1 (Nat.ltb_lt _ _)); vm_compute; reflexivity]).
+        + intros a b Hab Hb. change (f a <= 0 -> f b <= 0). rewrite !f_spec.
+          apply cmp_spec_mono; try assumption; [apply no_nul_strip, Hkey | apply ok_sws_nonul | lia].
+        + intros a b Hab Hb. change (f a < 0 -> f b < 0). rewrite !f_spec.
+          apply cmp_spec_mono; try assumption; [apply no_nul_strip, Hkey | apply ok_sws_nonul | lia].
+      - destruct (linear_find_complete (comparer sgn L key) (l_words L) 0 j) as [j' Hj'].
+        + eapply Nat.lt_le_trans; [exact Hj|]. apply Nat.eq_le_incl. symmetry. exact ok_len.
+        + exact Hacc.
+        + exists j'. rewrite Hj'. reflexivity.
+    Qed.
+  End OneLang.
+End SearchSpec.
+
+(* ---------------------------------------------------------- uniqueness *)
+Fixpoint nodup_b (l : list bytes) : bool :=
+  match l with
+  | [] => true
+  | x :: t => negb (existsb (bytes_eqb x) t) && nodup_b t
+  end.
+
+Lemma nodup_b_ok l : nodup_b l = true -> NoDup l.
+Proof.
+  induction l as [|x t IH]; intros H; [constructor|].
+  cbn in H. apply andb_true_iff in H. destruct H as [H1 H2]. constructor; [|apply IH, H2].
+  intros I. apply negb_true_iff in H1.
+  assert (E : existsb (bytes_eqb x) t = true) by (apply existsb_exists; exists x; split; [exact I | apply bytes_eqb_eq; reflexivity]).
+  congruence.
+Qed.
+
+(* the key that decides a token: the stripped word, cut to four letters where
+   abbreviation is allowed *)
+Definition uniq_keys (L : lang) : list bytes :=
+  let sws := map (strip L) (l_words L) in
+  if l_has_prefix L then map (firstn 4) sws else sws.
+
+Lemma firstn_firstn_le {A} n m (l : list A) : (n <= m)%nat -> firstn n (firstn m l) = firstn n l.
+Proof. intros H. rewrite firstn_firstn. f_equal. lia. Qed.
+
+Lemma accepts_key4 L k e1 e2 :
+  accepts_stripped L k e1 = true -> accepts_stripped L k e2 = true ->
+  if l_has_prefix L then firstn 4 e1 = firstn 4 e2 else e1 = e2.
+Proof.
+  unfold accepts_stripped. intros H1 H2.
+  apply orb_true_iff in H1. apply orb_true_iff in H2.
+  destruct (l_has_prefix L); cbn [andb] in *.
+  - assert (P : forall e, bytes_eqb k e = true \/ (4 <=? length k)%nat && is_prefix k e = true ->
+                          k = e \/ ((4 <= length k)%nat /\ firstn 4 e = firstn 4 k)).
+    { intros e [H|H]; [left; apply bytes_eqb_eq, H|]. right.
+      apply andb_true_iff in H. destruct H as [Ha Hb]. apply Nat.leb_le in Ha.
+      apply is_prefix_firstn in Hb. split; [exact Ha|].
+      transitivity (firstn 4 (firstn (length k) e));
+        [symmetry; apply firstn_firstn_le; exact Ha | f_equal; symmetry; exact Hb]. }
+    destruct (P e1 H1) as [E1|[L1 E1]]; destruct (P e2 H2) as [E2|[L2 E2]]; try congruence.
+  - destruct H1 as [H1|H1]; [|discriminate]. destruct H2 as [H2|H2]; [|discriminate].
+    apply bytes_eqb_eq in H1, H2. congruence.
+Qed.
+
+Lemma nth_map_strip L ws j : nth j (map (strip L) ws) [] = strip L (nth j ws []).
+Proof.
+  transitivity (nth j (map (strip L) ws) (strip L [])).
+  - f_equal. symmetry. apply strip_nil.
+  - apply map_nth.
+Qed.
+
+Lemma sorted_nodup sgn l : sorted_b sgn l = true -> Forall no_nul l -> NoDup l.
+Proof.
+  intros Hs Hn. apply (NoDup_nth l []). intros i j Hi Hj E.
+  destruct (Nat.lt_trichotomy i j) as [H|[H|H]]; [|exact H|].
+  - pose proof (sorted_nth sgn l Hs Hn i j H Hj) as C. rewrite E, cs_refl in C. lia.
+  - pose proof (sorted_nth sgn l Hs Hn j i H Hi) as C. rewrite E, cs_refl in C. lia.
+Qed.
+
+(* what is computed per language: O(n) for sorted lists, O(n^2) otherwise *)
+Definition uniq_ok (sgn : bool) (L : lang) : bool :=
+  if l_is_sorted L then sorted_b sgn (uniq_keys L) else nodup_b (uniq_keys L).
+
+Lemma uniq_keys_nonul L : Forall no_nul (l_words L) -> Forall no_nul (uniq_keys L).
+Proof.
+  intros H. unfold uniq_keys.
+  assert (S : Forall no_nul (map (strip L) (l_words L))).
+  { apply Forall_forall. intros w Hw. apply in_map_iff in Hw. destruct Hw as [w0 [<- Hw0]].
+    apply no_nul_strip. rewrite Forall_forall in H. apply H, Hw0. }
+  destruct (l_has_prefix L); [|exact S].
+  apply Forall_forall. intros w Hw. apply in_map_iff in Hw. destruct Hw as [w0 [<- Hw0]].
+  apply no_nul_firstn. rewrite Forall_forall in S. apply S, Hw0.
+Qed.
+
+Lemma uniq_ok_nodup sgn L : uniq_ok sgn L = true -> Forall no_nul (l_words L) -> NoDup (uniq_keys L).
+Proof.
+  unfold uniq_ok. intros H Hn. destruct (l_is_sorted L).
+  - apply (sorted_nodup sgn); [exact H | apply uniq_keys_nonul, Hn].
+  - apply nodup_b_ok, H.
+Qed.
+
+Theorem accepts_unique L key i j :
+  NoDup (uniq_keys L) ->
+  (i < length (l_words L))%nat -> (j < length (l_words L))%nat ->
+  accepts_b L key (nth i (l_words L) []) = true ->
+  accepts_b L key (nth j (l_words L) []) = true -> i = j.
+Proof.
+  intros Hnd Hi Hj Hai Haj.
+  unfold accepts_b in *.
+  pose proof (accepts_key4 L _ _ _ Hai Haj) as K.
+  pose proof (proj1 (NoDup_nth (uniq_keys L) []) Hnd) as Hn. apply (Hn i j).
+  - unfold uniq_keys. destruct (l_has_prefix L); rewrite ?map_length; exact Hi.
+  - unfold uniq_keys. destruct (l_has_prefix L); rewrite ?map_length; exact Hj.
+  - unfold uniq_keys. destruct (l_has_prefix L).
+    + change ([] : bytes) with (firstn 4 ([] : bytes)). rewrite !map_nth.
+      rewrite !nth_map_strip. exact K.
+    + rewrite !nth_map_strip. exact K.
+Qed.
